@@ -118,7 +118,14 @@ def _check_threshold(ctx, res, v):
     if "s" not in params:
         res.unknown("M-THRESH", f, "w >= s", "w>=s", "no parameter `s`", loc(v.fi, v.fi.node))
         return
-    cmps = [n for n in walk_no_nested(v.fi.node) if isinstance(n, ast.Compare) and len(n.ops) == 1 and "s" in (norm(n.left), norm(n.comparators[0])) and not any(_is_len(x) for x in ast.walk(n))]
+    # (a comparison of `s` with a size statistic of the hyperedges - `s > max(map(len, edges))`, `s > largest` - is a fast-path test,
+    # not the similarity threshold)
+    def _size_statistic(n):
+        other = n.comparators[0] if norm(n.left) == "s" else n.left
+        oi = v.inline(other, depth=2)
+        return any(_is_len(x) or (isinstance(x, ast.Name) and x.id in ("len", "max", "min")) for x in ast.walk(oi))
+
+    cmps = [n for n in walk_no_nested(v.fi.node) if isinstance(n, ast.Compare) and len(n.ops) == 1 and "s" in (norm(n.left), norm(n.comparators[0])) and not any(_is_len(x) for x in ast.walk(n)) and not _size_statistic(n)]
     if not cmps:
         raise AnalysisError(f"{f}: threshold comparison not found")
     sims = _similarity_calls(ctx, v)
@@ -224,6 +231,21 @@ def run(ctx):
             # M-THRESH
             with res.guard(f"M-THRESH of {d}"):
                 _check_threshold(ctx, res, v)
+            # every way out hands back the graph WITH its vertices: no `return g, ...` is reachable from the construction of the graph
+            # without passing the statement that creates the vertices (an early exit for "no pair can be linked" still owes one
+            # vertex per hyperedge)
+            with res.guard(f"K-VID vertices-before-return of {d}"):
+                adders = [gc for gc in gcalls if gc.meth == "add_nodes_from"]
+                if adders:
+                    aid = {v.cfg_id(gc.node) for gc in adders} - {None}
+                    gnames = {norm(gc.node.func.value) for gc in adders if isinstance(gc.node.func, ast.Attribute)}
+                    ctor = [a_ for a_ in walk_no_nested(v.fi.node) if isinstance(a_, ast.Assign) and len(a_.targets) == 1 and isinstance(a_.targets[0], ast.Name) and a_.targets[0].id in gnames]
+                    for r_ in walk_no_nested(v.fi.node):
+                        if not (isinstance(r_, ast.Return) and r_.value is not None and any(isinstance(x, ast.Name) and x.id in gnames for x in ast.walk(r_.value))):
+                            continue
+                        rid_ = v.cfg_id(r_)
+                        early = any(v.cfg_id(c_) is not None and rid_ is not None and v.cfg.reaches_without(v.cfg_id(c_), rid_, aid) for c_ in ctor)
+                        res.check(not early, "K-VID", f, norm(r_)[:80], "vertices-before-return", "the graph is returned on a path that never creates its vertices: the result has no vertex for the hyperedges although the id table lists them (hyperedges without a link still have a vertex)", loc(v.fi, r_))
             # graph links use ids of the id table; vertices are 0..len(h)-1
             check_vertices_are_ids(res, v, [gc for gc in gcalls if gc.meth == "add_edge"], inv, what="a line-graph link is created from raw hyperedges instead of their ids")
             for gc in gcalls:
